@@ -1,5 +1,5 @@
 //! Plain script runner used for hand replay and exploration of engine behaviour.
-//! Script lines:  `db: <sql>` | `s<n>: begin|commit|rollback|drop|<sql>` | `reopen` | `vacuum` | `flush` | `analyze` | `explain: <sql>` | `cfg page cache pool minkeys siblings`
+//! Script lines:  `db: <sql>` | `s<n>: begin|commit|rollback|drop|<sql>` | `reopen` | `crash` (simulated process death + open) | `vacuum` | `flush` | `analyze` | `explain: <sql>` | `cfg page cache pool minkeys siblings`
 use crate::sqldrv::*;
 
 pub fn run(args: &[String]) -> i32 {
@@ -27,6 +27,17 @@ pub fn run(args: &[String]) -> i32 {
         let t0 = std::time::Instant::now();
         let res: String = if line == "reopen" {
             format!("{:?}", d.reopen(cfg))
+        } else if line == "crash" {
+            // simulated process death (handles leaked, nothing flushed), then open with recovery
+            d.crash();
+            match Db::open_in(d.dir.clone(), cfg) {
+                Ok(mut nd) => {
+                    d.replace_handle(&mut nd);
+                    std::mem::forget(nd);
+                    "crashed and reopened".into()
+                }
+                Err(e) => format!("open after crash failed: {e}"),
+            }
         } else if line == "vacuum" {
             format!("{:?}", d.vacuum())
         } else if line == "flush" {
